@@ -152,6 +152,11 @@ func init() {
 				if rc.Compression != "" && !contains(svc.compressions(), rc.Compression) {
 					svc.Compression, svc.NoCompression = append(append([]string{}, svc.compressions()...), rc.Compression), false
 				}
+				if rc.Form == FormConnectGet && c.Bool() {
+					// a GET that is acceptable as it stands is forwarded as it stands, whatever length of URL the transcoder
+					// would allow itself when it has to build a GET
+					svc.MaxGetURL = uint32(Pick(c, 1, 16, 64, 200))
+				}
 				if c.Prob(0.4) && rc.Form != FormConnectGet {
 					rc.RawBody, rc.HasRawBody = c.Bytes(c.Intn(60)), true // bytes that are not valid in the protocol
 				}
